@@ -763,9 +763,14 @@ class ConstraintsUnion(AbstractConstraintSet):
             else:
                 return
 
-        raise error.ValueConstraintError(
-            'all of %s failed for "%s"' % (self._values, value)
-        )
+        try:
+            message = 'all of %s failed for "%s"' % (self._values, value)
+
+        except ValueError:
+            # the offending value is too large to be printed
+            message = 'all of %s failed' % (self._values,)
+
+        raise error.ValueConstraintError(message)
 
 # TODO:
 # refactor InnerTypeConstraint
